@@ -118,8 +118,10 @@ def run(ctx):
             (HSP, 'std::result::Result<amq_protocol::protocol::connection::Secure, errors::Error>', 'Err(_)', None),
             (HSP, 'std::result::Result<amq_protocol::protocol::connection::Close, errors::Error>', 'Err(_)', None),
         ], key=lambda x: tuple(str(y) for y in x))
-        r.eq('swallowing-arms', SW, want, ctx.site('io_loop::IoLoop::handle_steady_event'),
-             why='an EOF before CloseOk (or any other error) that is swallowed leaves the I/O thread polling a dead socket: close() and every caller hang')
+        extra = [x for x in SW if x not in want]
+        r.check('swallowing-arms', not extra, ctx.site('io_loop::IoLoop::handle_steady_event'), built=extra or SW, expected=want,
+                why='an EOF before CloseOk (or any other error) that is swallowed leaves the I/O thread polling a dead socket: close() and every caller hang '
+                    '(an error may be discarded only at the tabled places; discarding it at fewer places is fine)')
 
     with ctx.rule('R05.2', 'no masking: an error is replaced by another only for the tabled cause', floor=2) as r:
         from rules import c16
